@@ -355,7 +355,7 @@ Proof.
       * rewrite (drain_err parse k (prepend o s) Hne' Ep), (drain_err parse k s Hne Ep).
         unfold prepend. cbn [buf out dead stuck]. rewrite app_assoc. reflexivity.
       * rewrite (drain_rep parse k (prepend o s) f n Hne' Ep), (drain_rep parse k s f n Hne Ep).
-        unfold prepend. cbn [buf out dead stuck]. rewrite app_assoc. reflexivity.
+        rewrite <- IH. unfold prepend. cbn [buf out dead stuck]. rewrite app_assoc. reflexivity.
 Qed.
 
 Lemma feed_prepend o s c : feed parse (prepend o s) c = prepend o (feed parse s c).
@@ -378,7 +378,6 @@ Qed.
 Theorem handover_stream a b tls :
   let old := feed parse (@init F) a in
   dead old = false ->
-  no_reply (feed parse (@init F) (a ++ b)) ->
   (blen (buf old) < 4294967296)%N -> (blen tls < 4294967296)%N ->
   exists nw, handover old tls = Some (nw, tls) /\
     let fin := feed parse nw b in
@@ -387,8 +386,8 @@ Theorem handover_stream a b tls :
     dead (feed parse (@init F) (a ++ b)) = dead fin /\
     stuck fin = false.
 Proof.
-  intros old Hd Hnr Hb Ht. exists (fresh_with (buf old)). split; [apply handover_ok; assumption|].
-  cbn zeta. rewrite <- (feed_feed parse St init a b Hnr). fold old.
+  intros old Hd Hb Ht. exists (fresh_with (buf old)). split; [apply handover_ok; assumption|].
+  cbn zeta. rewrite <- (feed_feed parse St init a b). fold old.
   assert (Hst : stuck old = false) by (unfold old; rewrite (seg_never_stuck parse St); reflexivity).
   assert (Hold : old = prepend (out old) (fresh_with (buf old))).
   { destruct old as [ob oo od os]. cbn in Hd, Hst. subst. unfold prepend, fresh_with. cbn. rewrite app_nil_r. reflexivity. }
